@@ -295,6 +295,59 @@ func checkC09(c *h.Check) {
 			}
 		}
 	}
+	// twin packages (same package name, same identifiers, different import paths): the signature rules are applied to
+	// each provider, whichever twin is looked at first
+	for order := 0; order < 2; order++ {
+		for via := 0; via < 2; via++ {
+			for bad := 0; bad < 3; bad++ { // which twin's New is malformed: 0 none, 1 the x twin, 2 the y twin
+				twin := func(letter string, malformed bool) string {
+					sig := "*" + letter
+					body := "return &" + letter + "{}"
+					if malformed {
+						sig = "(*" + letter + ", int)"
+						body = "return &" + letter + "{}, 0"
+					}
+					return "package store\n\nimport \"github.com/google/wire\"\n\ntype " + letter + " struct{}\n\ntype Z" + letter + " struct{}\n\nfunc New() " + sig + " { " + body + " }\n\nfunc NewZ() Z" + letter + " { return Z" + letter + "{} }\n\nvar Set = wire.NewSet(New, NewZ)\n"
+				}
+				useX, useY := "xstore.New", "ystore.New, ystore.NewZ"
+				if via == 1 {
+					useX, useY = "xstore.Set", "ystore.Set"
+				}
+				injX := "func InitX() *xstore.X {\n\tpanic(wire.Build(" + useX + "))\n}\n"
+				if via == 1 {
+					injX = "func InitX() xstore.ZX {\n\tpanic(wire.Build(" + useX + "))\n}\n" // the set's other member: New is not needed but must be valid
+					if bad != 1 {
+						injX = "func InitX() xstore.ZX {\n\tpanic(wire.Build(xstore.NewZ))\n}\n\nfunc InitX2() *xstore.X {\n\tpanic(wire.Build(xstore.New))\n}\n"
+					}
+				}
+				injZ := "func InitZ() ystore.ZY {\n\tpanic(wire.Build(" + useY + "))\n}\n"
+				if via == 0 {
+					injZ = "func InitZ() ystore.ZY {\n\tpanic(wire.Build(ystore.NewZ))\n}\n\nfunc InitY() *ystore.Y {\n\tpanic(wire.Build(ystore.New))\n}\n"
+				}
+				body := injX + "\n" + injZ
+				if order == 1 {
+					body = injZ + "\n" + injX
+				}
+				files := map[string]string{
+					"x/store/store.go": twin("X", bad == 1),
+					"y/store/store.go": twin("Y", bad == 2),
+					"wire.go":          "//go:build wireinject\n// +build wireinject\n\npackage p\n\nimport (\n\t\"github.com/google/wire\"\n\txstore \"{{ROOT}}/x/store\"\n\tystore \"{{ROOT}}/y/store\"\n)\n\n" + body,
+				}
+				var reasons []ir.Reason
+				if bad != 0 {
+					reasons = []ir.Reason{{Class: "bad-sig", Subject: "New"}}
+				}
+				id := fmt.Sprintf("C09/twin-packages/order=%d/via-set=%d/malformed=%d", order, via, bad)
+				addCase(&h.Case{ID: id, Files: files, Build: true, Judge: func(r *h.Result) []h.Violation {
+					vs := judgeVerdict(r, reasons)
+					if len(vs) == 0 && len(reasons) == 0 && r.CompileErr != "" {
+						vs = append(vs, h.Violation{Symptom: "compile-error", Detail: clip(r.CompileErr, 1200)})
+					}
+					return vs
+				}}, "twin-packages")
+			}
+		}
+	}
 	// needs x has: provider shape (4) x injector shape (4) x where the needing provider sits (4)
 	for ps := 0; ps < 4; ps++ {
 		for is := 0; is < 4; is++ {
